@@ -124,7 +124,10 @@ def getValue (c : Char V P) (gout : Option V) : Option V × Char V P :=
     | some v => (some v, c.setVal v)
   else (some c.value, c)
 
-/-- the body of `to_HAP` after the cache tests -/
+/-- the body of `to_HAP` after the cache tests.
+    (The guard added for C20 — drop the with-value cache again when `hap_rep["value"] is not
+    self._value` — never fires in a single-threaded history: the rendered value *is* the object
+    `get_value()` returned, i.e. `self._value`; the threaded window is C20's subject.) -/
 def build (c : Char V P) (iid : Option Nat) (incl : Bool) (gout : Option V) :
     Option (CharRep V P) × Char V P :=
   let rep := c.baseRep iid
